@@ -334,6 +334,9 @@ class Emitter:
         if ck == "BitCast":
             return "((%s)%s)" % (self.ctype(n), self.paren(self.E(inner)))
         if ck in ("DerivedToBase", "UncheckedDerivedToBase"):
+            sct, dct = self.try_ctype(inner), self.try_ctype(n)
+            if sct is not None and sct == dct and (not sct.startswith("struct ") or sct.endswith("*")):
+                return self.E(inner)  # library class and its base both mapped to the same scalar (iterators)
             return self.derived_to_base(n, inner)
         if ck == "BaseToDerived":
             return self.base_to_derived(n, inner)
@@ -348,6 +351,9 @@ class Emitter:
         path = self.cast_path(n, dtag)
         if not path:
             raise Unsupported("derived-to-base cast without path")
+        dct = self.try_ctype(n)
+        if len(path) == 1 and dct and dct.rstrip("*").startswith("struct vf_"):
+            path = [dct.rstrip("*")[len("struct "):]]  # class deriving from a modelled std container: base = the model
         e = self.paren(self.E(inner))
         cur = dtag
         acc = (e + "->") if is_ptr else (e + ".")
